@@ -58,6 +58,16 @@ def SeqK.serChecksZst : SeqK → Bool
   | .slice | .boxSlice | .cowSlice | .rcSlice | .bytes | .bytesMut => false
   | _ => true
 
+/-- serializers that loop over an iterator: no `u8` fast path -/
+def SeqK.noFastPath : SeqK → Bool
+  | .indexSet | .linkedList => true
+  | _ => false
+
+/-- the `bytes` crate's buffers: the element type is `u8` by definition -/
+def SeqK.isBytes : SeqK → Bool
+  | .bytes | .bytesMut => true
+  | _ => false
+
 inductive SetK | hashSet | btreeSet
   deriving DecidableEq, Repr, Inhabited
 inductive MapK | hashMap | btreeMap | indexMap
@@ -194,6 +204,10 @@ instance : BEq Val := ⟨Val.beq⟩
 `array_from_reader` are overridden for `u8` only) -/
 def Ty.isU8 : Ty → Bool
   | .int .u8 => true
+  | _ => false
+
+def Ty.isU32 : Ty → Bool
+  | .int .u32 => true
   | _ => false
 
 end Borsh
